@@ -35,7 +35,37 @@ def extra(res, cases, hv, driver):
             if bad <= 3:
                 res.violation("Inplace.v model and InplaceInterpreter disagree on %r: model %s impl %s" % (c.src[:200], a[:200], b[:200]),
                               {"case": c.to_json(), "model": a, "implementation": b, "backend": "inplace", "level": 0})
-    return {"model_vs_impl_compared": len(H), "model_vs_impl_disagreements": bad}
+    # every other character is a comment: interleave non-command characters — ASCII, Latin-1, and
+    # code points whose UTF-8 bytes or whose low byte coincide with command bytes — and expect the trace
+    # of the bare program
+    rng = C.Rng(res.seed * 31337 + 4)
+    COMMENTS = ["a", " ", "\n", "#", "\u00e9", "\u012b", "\u012d", "\u013c", "\u013e", "\u015b", "\u015d", "\u042c", "\u042e", "\u202e",
+                "\u2b2b", "\u5b5d", "\U0001f62b", "\U0001f600", "\u00ab", "\u00bb", "\u3b3c"]
+    sample = H[:: max(1, len(H) // (300 if res.tier == "quick" else 5000))]
+    commented = []
+    for c in sample:
+        r = rng.fork()
+        out = []
+        for ch in c.src:
+            if r.below(3) == 0:
+                out.append(r.choice(COMMENTS))
+            out.append(ch)
+        out.append(r.choice(COMMENTS))
+        commented.append(P.Case("".join(out), c.w, c.env, c.gen + "+comments"))
+    ci = C.run_lines(hv, P.run_backend_lines(commented, "inplace", 0))
+    cm = C.run_lines(driver, ["inplace|%d|0|0|%d|%s|%s" % (c.w, P.FUEL * 2, P.hexs(c.src), c.env) for c in commented])
+    cbad = 0
+    for c0, c, a, mres in zip(sample, commented, ci, cm):
+        want = P.trace_of(c0.canon)
+        st, fin, tr = P.split_result(a)
+        if st != "ok" or tr != want or (P.split_result(mres)[0] != "fuel" and P.split_result(mres)[2] != want):
+            cbad += 1
+            if cbad <= 3:
+                c.canon = c0.canon
+                res.violation("non-command characters change the behaviour of the in-place interpreter (or of its model): %r gives %s (model %s), the bare program %r gives %s"
+                              % (c.src[:200], a[:150], mres[:100], c0.src[:150], c0.canon[:150]),
+                              {"case": c.to_json(), "backend": "inplace", "level": 0, "implementation": a, "model": mres, "canonical": c0.canon})
+    return {"model_vs_impl_compared": len(H), "model_vs_impl_disagreements": bad, "commented_variants": len(commented), "comment_disagreements": cbad}
 
 
 def run(res):
